@@ -28,7 +28,7 @@ for d in ${1:-*}/; do
   VERIF_REPO="$S" VERIF_OUT="$S/.out" /verif/check $found --replay "$f" > "$S/.r1" 2>&1; r1=$?
   /verif/check $found --replay "$f" > "$S/.r2" 2>&1; r2=$?
   if [ $r1 -eq 1 ] && [ $r2 -eq 0 ]; then echo "$d ($found): replay reproduces on the mutant (exit 1), silent on the unchanged tree (exit 0)";
-  else echo "$d ($found): REPLAY PROBLEM mutant-exit=$r1 clean-exit=$r2"; tail -3 "$S/.r1" "$S/.r2"; rc=1; fi
+  else echo "$d ($found): REPLAY PROBLEM mutant-exit=$r1 clean-exit=$r2"; tail -n 3 "$S/.r1"; tail -n 3 "$S/.r2"; rc=1; fi
   rm -rf "$S"
 done
 exit $rc
